@@ -81,6 +81,17 @@ def history_spec(seed, tier, index):
     # invalid / failing requests in between
     for k, bad in enumerate(INVALID):
         reqs.insert((k * 5 + 2) % (len(reqs) + 1), dict(bad))
+    if not euclid:
+        # requests whose exchange with the walking router FAILS (deterministic faults: a 500, a body that is not JSON, an empty
+        # body, null entries; at the only / the first / the second lookup): "failed requests" of the property's statement.
+        # Whatever the filter keeps from such an exchange must not reach the next request.
+        r3 = rng.fork()
+        healthy = [r for r in reqs if r.get("acc") or r.get("egr")]
+        for k in range(4 if healthy else 0):
+            src = dict(r3.choice(healthy))
+            f = r3.choice(["status500", "nonjson", "empty", "nulls"])
+            src["faults"] = [f] if (src["kind"] == "access" or r3.chance(0.5)) else [None, f]
+            reqs.insert(r3.randint(0, len(reqs)), src)
     r2 = rng.fork()
     order_a = list(range(len(reqs)))
     order_b = order_a[::-1]
@@ -99,7 +110,8 @@ def run_history(binary, spec, workdir):
     os.makedirs(cache)
     base = dict(level="L3 request histories on the real binary (C13)", seed=spec.get("seed"), tier=spec.get("tier"), history=spec["index"],
                 mode="euclidean" if spec["euclid"] else "router stub", cache_all=spec["cache_all"], dataset=ds.text(),
-                requests=[r["path"] for r in reqs], orders=spec["orders"], binary=binary)
+                requests=[r["path"] + ("   [router exchanges of this request: %s]" % r["faults"] if r.get("faults") else "") for r in reqs],
+                orders=spec["orders"], binary=binary)
     fails, evals, answers = [], 0, {}
     stub = l3.OsrmStub()
     extra = ("--useEuclideanDistance=true",) if spec["euclid"] else ()
